@@ -11,7 +11,7 @@ COQ_TARGETS = ["Props/C01.vo", "Model/C01Harness.vo", "Model/Harness.vo"]
 THEOREM_FILES = ["Props/C01.v"]
 COQ_IMPORTS = ("From Coq Require Import List ZArith Bool.\n"
                "From PV Require Import Base.Index Base.Perm Np.Array Model.Sparse Model.Repr Model.Harness Model.C07Ops Model.C07Harness "
-               "Model.C01Conv Model.C01Harness.\n")
+               "Model.C01Conv Model.C01Unique Model.C01Coo Model.C01Harness.\n")
 RULE = ("dense<->sparse: all shapes with <= 8 cells (exhaustive) + seeded random shapes <= 5 modes / 96 cells; sparsity {0,1,some,all}; stored "
         "orders {sorted,reversed,random}; non-trivial = more than one cell and at least one nonzero; distinct = distinct (op,args); "
         "matricisation: every ordered partition of the modes into (rdims, cdims) for N<=4 (either side may be empty) + seeded sample "
